@@ -111,6 +111,9 @@ def hash_prepare_optimize(optimize):
 
 def hash_contraction(inputs, output, size_dict, optimize, **kwargs):
     """Compute a hash key for the specified contraction."""
+    # inputs and output can be any sequences, e.g. lists if not canonicalized
+    inputs = tuple(map(tuple, inputs))
+    output = tuple(output)
     optimize = hash_prepare_optimize(optimize)
     kwargs = frozenset(kwargs.items())
     return (
